@@ -345,8 +345,14 @@ def run_history(calls):
     try:
         objs = witnesses()
 
+        from schwifty import registry as _reg
+
         def dig():
-            return hashlib.sha256((census() + repr(project(objs))).encode()).hexdigest()[:16]
+            # cheap per-call digest (attributes a modification to the call that made it): sizes of
+            # all registries and the projections of the witness objects; the complete digest of the
+            # registries is taken once per history (census_full)
+            sizes = [(str(k), len(v)) for k, v in sorted(_reg._registry.items(), key=lambda kv: str(kv[0]))]
+            return hashlib.sha256(repr((sizes, project(objs))).encode()).hexdigest()[:16]
 
         census0 = dig()
         if _full0[0] is None:
